@@ -134,6 +134,22 @@ def shape_hof_tail(r, n):
     return "via-higher-order-helper", src, "N"
 
 
+def shape_local_helper(r, n, form=None):
+    """the tail call back to the enclosing function is made from the tail of a helper lambda that is bound by a let (or an
+    internal define) inside it and called in tail position: two tail calls per iteration, neither may keep a frame"""
+    form = form or r.choice(["let", "define", "let-two", "named-inner"])
+    if form == "let":
+        src = "(define (loop i acc) (vf-sample! i A B C) (let ((k (lambda (m) (loop m (+ acc 1))))) (if (= i 0) acc (k (- i 1)))))\n(loop N 0)"
+    elif form == "define":
+        src = "(define (loop i acc) (define (k m) (loop m (+ acc 1))) (vf-sample! i A B C) (if (= i 0) acc (k (- i 1))))\n(loop N 0)"
+    elif form == "let-two":
+        src = ("(define (loop i acc) (vf-sample! i A B C) (let ((down (lambda (m) (loop m (+ acc 1)))) (stay (lambda (m) (loop (- m 1) (+ acc 1))))) "
+               "(cond ((= i 0) acc) ((even? i) (down (- i 1))) (else (stay i)))))\n(loop N 0)")
+    else:
+        src = ("(define (loop i acc) (vf-sample! i A B C) (if (= i 0) acc (let inner ((j 0)) (if (< j 2) (inner (+ j 1)) (loop (- i 1) (+ acc 1))))))\n(loop N 0)")
+    return "via-local-helper/" + form, src, "N"
+
+
 SHAPES = [shape_self, shape_self, shape_captured, shape_mutual, shape_mutual, shape_param, shape_apply, shape_cond,
           shape_cond, shape_letbody, shape_letbody, shape_rest, shape_setglobal, shape_cps, shape_hof_tail,
           shape_handler]
@@ -166,6 +182,8 @@ def main(tier):
             progs.append(f(r, 0))
     for k in (2, 3, 4, 5):
         progs.append(shape_mutual(r, 0, k))
+    for form in ("let", "define", "let-two", "named-inner"):
+        progs.append(shape_local_helper(r, 0, form))
     # dedupe
     seen = set()
     uniq = []
